@@ -208,6 +208,13 @@ def run_prog(prog, sc, c, xs):
       return v
     if t == 'k':
       return jnp.full(shape, e[1], jnp.int32)
+    if t == 'bc':  # a higher-rank leaf: e[..., None, ...] + arange(prod(extra)).reshape(extra)
+      a = ev(e[1])
+      if isinstance(a, KeyVal):
+        raise TypeError('arithmetic on a PRNG key')
+      extra = tuple(e[2])
+      a = jnp.asarray(a)
+      return a.reshape(a.shape + (1,) * len(extra)) + jnp.arange(int(np.prod(extra)), dtype=jnp.int32).reshape(extra)
     a, b = ev(e[1]), ev(e[2])
     if isinstance(a, KeyVal) or isinstance(b, KeyVal):
       raise TypeError('arithmetic on a PRNG key')
@@ -870,6 +877,7 @@ def _short(d, what):
 # ------------------------------------------------------------------------------------------------
 
 COLS = ['P', 'K', 'S', 'Q']
+EXTRAS = [[2], [1, 2], [2, 3], [3, 1]]
 STREAMS = ['params', 's', 't']
 
 
@@ -1048,6 +1056,7 @@ def gen_scan_case(rng, stream='valid', api=None, kind='scan'):
   data_leaves = [['c', k] for k in range(ncarry)] + [['x', k] for k in range(nargs)]
   known_regs = []  # registers whose value does not depend on carry / scanned data
   all_regs = []
+  xregs = []  # (register, extra dims, known) of higher-rank variables
   outer = []
   written = {}
   for c in cols:
@@ -1063,19 +1072,37 @@ def gen_scan_case(rng, stream='valid', api=None, kind='scan'):
       present = False  # Out-only axis collection: created by the loop
     if ir[0] == 'none' and (orl[0] == 'none' or not is_mut[c]) and not wild:
       continue  # not visible inside the loop and cannot be created there: the body must not touch it
+    # leaves of DIFFERENT ranks inside one collection (one axis entry covers them all, so a negative axis has to
+    # be resolved per leaf); the flattening order (sorted names) puts the lower-rank leaf first or last
+    if nvars == 1 and rng.random() < 0.35:
+      nvars = 2
+    extras = [[] for _ in range(nvars)]
+    if nvars >= 2 and rng.random() < 0.6:
+      extras[rng.choice([0, nvars - 1])] = rng.choice(EXTRAS)
     for vi in range(nvars):
       name = 'v%d' % vi
       reg = f'{c.lower()}{vi}'
+      extra = extras[vi]
       shared_known = ir[0] in ('bcast', 'shared')
       init_leaves = const_leaves + (known_regs if shared_known else all_regs + data_leaves)
       if wild and rng.random() < 0.15:
         init_leaves = const_leaves + all_regs + data_leaves
       init_e = rand_expr(rng, init_leaves or const_leaves, 1)
+      if extra:
+        init_e = ['bc', init_e, extra]
       stmts.append(['var', reg, c, name, init_e])
+      col_vars.append((name, extra))
+      if extra:
+        can_write = is_mut[c] and orl[0] in ('carry', 'axis')
+        if can_write and rng.random() < 0.7:
+          e = ['+', ['r', reg], ['bc', rand_expr(rng, all_regs + data_leaves + const_leaves, 2), extra]]
+          stmts.append(['set', c, name, e])
+          written[c] = True
+        xregs.append((['r', reg], extra, shared_known))
+        continue
       all_regs.append(['r', reg])
       if shared_known:
         known_regs.append(['r', reg])
-      col_vars.append(name)
       can_write = is_mut[c] and orl[0] in ('carry', 'axis') and (ir[0] != 'none' or True)
       if wild and rng.random() < 0.2:
         can_write = True
@@ -1086,15 +1113,12 @@ def gen_scan_case(rng, stream='valid', api=None, kind='scan'):
       elif orl[0] == 'shared' and is_mut[c] and rng.random() < 0.3:
         stmts.append(['set', c, name, rand_expr(rng, [['r', reg]] + known_regs + const_leaves, 1)])
     if present and ir[0] != 'none':
-      if ir[0] == 'axis':
-        vsh = insert_axis(shape, norm_ax(ir[1], rank1), n)
-      else:
-        vsh = shape
-      if wild and rng.random() < 0.08 and ir[0] == 'axis':
-        vsh = insert_axis(shape, norm_ax(ir[1], rank1), n + 1)
-      outer.append([c, [[nm, rand_arr(rng, vsh)] for nm in col_vars]])
+      def vshape(extra):
+        sh = shape + extra
+        return insert_axis(sh, norm_ax(ir[1], len(sh) + 1), n) if ir[0] == 'axis' else sh
+      outer.append([c, [[nm, rand_arr(rng, vshape(ex))] for nm, ex in col_vars]])
     elif present and wild:
-      outer.append([c, [[nm, rand_arr(rng, shape)] for nm in col_vars]])
+      outer.append([c, [[nm, rand_arr(rng, shape + ex)] for nm, ex in col_vars]])
   rng_regs = []
   for di in range(rng.choice([0, 1, 1, 2])):
     pool = sorted(lifted) if (lifted and not (wild and rng.random() < 0.2)) else (STREAMS if wild else [])
@@ -1110,13 +1134,21 @@ def gen_scan_case(rng, stream='valid', api=None, kind='scan'):
   carry_e = [rand_expr(rng, leaves, 2) for _ in range(ncarry)]
   nys = rng.choice([0, 1, 1, 2]) if kind != 'remat' else 0
   ys_e, ys_axes = [], []
-  for _ in range(nys):
-    if rng.random() < 0.15 and (known_regs or const_leaves):
+  if nys == 1 and rng.random() < 0.4:
+    nys = rng.choice([2, 3])
+  common_axis = rng.randrange(-rank1, rank1) if rng.random() < 0.5 else None  # one int for the whole output tree
+  hi = rng.choice([0, nys - 1]) if nys >= 2 and rng.random() < 0.7 else None  # position of the higher-rank leaf
+  for k in range(nys):
+    if rng.random() < 0.15 and (known_regs or const_leaves) and common_axis is None:
       ys_e.append(rand_expr(rng, known_regs + const_leaves, 1))
       ys_axes.append(None)  # a loop-independent output declared broadcast / None
     else:
-      ys_e.append(rand_expr(rng, leaves, 2))
-      ys_axes.append(rng.randrange(-rank1, rank1))
+      e = rand_expr(rng, leaves, 2)
+      if k == hi:
+        xr = [x for x in xregs if rng.random() < 0.5]
+        e = xr[0][0] if xr else ['bc', e, rng.choice(EXTRAS)]
+      ys_e.append(e)
+      ys_axes.append(common_axis if common_axis is not None else rng.randrange(-rank1, rank1))
   for r in rng_regs:
     ys_e.append(r)
     ys_axes.append(0)
@@ -1494,9 +1526,41 @@ def run_cases(ctx, drv, cases):
       ctx.count('split_flag', b)
     ctx.count('n_collections', len(case['outer']))
     _role_stats(ctx, case)
+    _rank_stats(ctx, case)
     if o[0] == 'ok':
       ctx.count('verdict', o[1]['verdict'])
     check_case(ctx, o, case, stream)
+
+
+def _has_bc(e):
+  return isinstance(e, list) and (e[0] == 'bc' or any(_has_bc(x) for x in e[1:] if isinstance(x, list)))
+
+
+def _rank_stats(ctx, case):
+  """how often one axis entry covers leaves of different ranks, and with what sign"""
+  prog = case['prog']
+  if case['kind'] == 'remat':
+    return
+  hi_regs = {st[1] for st in prog['stmts'] if st[0] == 'var' and _has_bc(st[4])}
+  ys_hi = [_has_bc(e) or (e[0] == 'r' and e[1] in hi_regs) for e in prog['ys']]
+  keys = [e[0] == 'r' and e[1].startswith('g') for e in prog['ys']]
+  oa = case['cfg']['out_axes']
+  if any(ys_hi) and not all(h or k for h, k in zip(ys_hi, keys)):
+    form = 'per-output' if isinstance(oa, list) else 'single-int'
+    axes = [a for a, k in zip(axes_expand(oa, len(ys_hi)), keys) if not k and a is not None]
+    sign = 'negative' if any(a < 0 for a in axes) else 'non-negative'
+    first = 'low-rank-first' if not ys_hi[0] else 'high-rank-first'
+    ctx.count('mixed_rank_outputs', f'{form}/{sign}/{first}')
+  cols = {}
+  for st in prog['stmts']:
+    if st[0] == 'var':
+      cols.setdefault(st[2], []).append(_has_bc(st[4]))
+  for a in case['cfg']['axes']:
+    if a[1] is None:
+      continue
+    for c, hs in cols.items():
+      if in_filter(a[0], c) and any(hs) and not all(hs):
+        ctx.count('mixed_rank_axis_collection', ('negative' if a[1] < 0 else 'non-negative') + '/' + ('low-rank-first' if not hs[0] else 'high-rank-first'))
 
 
 def _role_stats(ctx, case):
